@@ -2,6 +2,7 @@ package interp
 
 import (
 	"go/types"
+	"strings"
 
 	"gosym/term"
 )
@@ -37,10 +38,17 @@ func init() {
 			}
 			return res
 		}
+		// Several extensions model fmt.Sprintf; they are chained in registration order. This one adds %T and is only
+		// used for formats that contain it (or when no other model is registered); everything else goes to the
+		// previously registered model (ext_C14's r.sprintf, wrapped by ext_C25 for []byte operands).
+		prevSprintf := m["fmt.Sprintf"]
 		m["fmt.Sprintf"] = func(r *run, fr *frame, args []Value) Value {
 			f, ok := args[0].(Str).Concrete()
 			if !ok {
 				panic(unsupported("fmt.Sprintf with a symbolic format string"))
+			}
+			if prevSprintf != nil && !strings.Contains(f, "%T") {
+				return prevSprintf(r, fr, args)
 			}
 			ops, _ := args[1].([]Value)
 			var out Str
